@@ -1211,3 +1211,6 @@ NONTRIVIAL = "one obligation per cursor write, call-site justification, byte rea
 EXPLANATION += (
     ' R10(b) now also rejects a per-token reservation sized by a distance found by searching ahead of the cursor (memchr to the end of the line): that is the rest of the file on a one-line layout (D41, a defect of my own D39 repair).'
 )
+EXPLANATION += (
+    ' Round 6: R5c every `src[a..b]` of the renderer is cut between positions whose order the locator guarantees (line start <= span start <= min(span end, line end) <= line end). R10c (known finding D48): the whole source line is copied per diagnostic. R13: the rounds of return-type pre-inference are counted. R14 shares C18-R2b / R7 (the preflight estimate and the bit-set allocation count in the same unit).'
+)
